@@ -233,6 +233,46 @@ def register(E):
         return Iface(OPQ, OpaqueErr(tag, tuple(args), wrapped))
     I['fmt.Errorf'] = lambda E, a: opaque_err(E, a, 'Errorf')
     I['fmt.Sprintf'] = lambda E, a: OpaqueStr('Sprintf', tuple(a))
+
+    def fmt_sscan(E, args):
+        """fmt.Sscan(text, &x) for ONE unsigned/signed integer operand and concrete text: leading space skipped, the
+        longest run of decimal digits is the token, whatever follows is left unread (as the real scanner does)"""
+        text = args[0]
+        ops = E.slice_list(args[1]) if type(args[1]) is Slice else []
+        if len(ops) != 1 or type(ops[0]) is not Iface:
+            raise Unsupported('fmt.Sscan with other than one operand')
+        pu = E.types[ops[0].t].u
+        eu = E.types[pu.elem].u if pu.k == 'ptr' else None
+        if eu is None or eu.k != 'basic' or eu.name not in ('uint64', 'uint', 'uint32', 'int', 'int64'):
+            raise Unsupported('fmt.Sscan operand type')
+        signed = eu.name.startswith('int')
+        bits = 32 if eu.name == 'uint32' else 64
+        if type(text) is OpaqueStr and text.tag == 'dec' and not signed and bits == 64 and not text.parts[2]:
+            E.store(ops[0].v, text.parts[0])
+            return (1, None)
+        if type(text) is not bytes:
+            raise Unsupported('fmt.Sscan of symbolic text')
+        t = text.decode('latin-1').lstrip(' \t\r\n')
+        neg = False
+        if t[:1] in ('+', '-') and signed:
+            neg = t[0] == '-'
+            t = t[1:]
+        elif t[:1] == '+':
+            t = t[1:]
+        k = 0
+        while k < len(t) and t[k] in '0123456789_':
+            k += 1
+        if (k and t[:2].lower() in ('0x', '0b', '0o')) or '_' in t[:k]:
+            raise Unsupported('fmt.Sscan base prefix / underscore')
+        if k == 0:
+            return (0, Iface(OPQ, OpaqueErr('sscan: expected integer')))
+        v = -int(t[:k]) if neg else int(t[:k])
+        lo, hi = (-(1 << (bits - 1)), (1 << (bits - 1)) - 1) if signed else (0, (1 << bits) - 1)
+        if not lo <= v <= hi:
+            return (0, Iface(OPQ, OpaqueErr('sscan: value out of range')))
+        E.store(ops[0].v, v)
+        return (1, None)
+    I['fmt.Sscan'] = fmt_sscan
     I['fmt.Sprint'] = lambda E, a: OpaqueStr('Sprint', tuple(a))
     I['fmt.Sprintln'] = lambda E, a: OpaqueStr('Sprintln', tuple(a))
     I['fmt.Fprintf'] = lambda E, a: (0, None)
@@ -350,9 +390,19 @@ def register(E):
             return 32
         if method == 'BlockSize':
             return 64
+        if method == 'MarshalBinary':
+            # the saved state is an injective image of the absorb-chain state (8 bytes here)
+            st = o.v[0]
+            return (E.make_slice_from([z3.simplify(z3.Extract(8 * i + 7, 8 * i, st)) for i in range(8)]), None)
+        if method == 'UnmarshalBinary':
+            bs = E.slice_list(args[0])
+            if len(bs) != 8:
+                return Iface(OPQ, OpaqueErr('sha256: invalid hash state'))
+            E.store(Ptr(o, (0,)), z3.simplify(z3.Concat(*[E.tobv(b, 8) for b in reversed(bs)])))
+            return None
         raise Unsupported('sha256 method ' + method)
     Engine.special_invoke[SHA] = sha_invoke
-    Engine.special_methods[SHA] = ('Write', 'Sum', 'Reset', 'Size', 'BlockSize')
+    Engine.special_methods[SHA] = ('Write', 'Sum', 'Reset', 'Size', 'BlockSize', 'MarshalBinary', 'UnmarshalBinary')
 
     def sha_sum256(E, args):
         st = BV(0, 64)
@@ -855,6 +905,18 @@ def register(E):
         E.store(v.ptr, rv_get(E, x))
         return None
     I['(reflect.Value).Set'] = r_set
+
+    def r_copy(E, args):
+        """reflect.Copy(dst, src): element-wise, min(len) elements (lengths concrete on the path)"""
+        dst, src = args
+        if E.types[dst.t].u.k == 'array' and not dst.addressable:
+            raise GoPanic('reflect.Copy: unaddressable array')
+        n = min(E.conc_int(r_len(E, (dst,)), 64, True), E.conc_int(r_len(E, (src,)), 64, True))
+        vals = [rv_get(E, r_index(E, (src, i))) for i in range(n)]
+        for i in range(n):
+            E.store(r_index(E, (dst, i)).ptr, vals[i])
+        return n
+    I['reflect.Copy'] = r_copy
 
     def _conj(cs):
         if all(type(c) is bool for c in cs):
